@@ -31,6 +31,9 @@ INT_TYPES = [n for n, v in SCALARS.items() if v[0] == "int"]
 NAMES = ["A", "B", "C", "D", "RED", "x1", "Zero", "LAST", "b", "u", "l"]
 
 
+SPELLINGS = {"uint8": "unsigned   char" if False else "BYTE", "uint16": "unsigned   short", "int16": "signed short", "uint32": "unsigned int", "int32": "int", "uint64": "unsigned  long long", "int64": "long long", "int8": "signed char"}
+
+
 def ref_numbering(kind, members, consts=None):
     """members: [(name, ast|None)] -> [(name, value)]"""
     out = []
@@ -95,17 +98,34 @@ def decl_case(draw):
         "shadow": shadow,
         "kind": kind, "base": base, "members": members, "name": None if anon else "E", "legacy": legacy,
         "compiled": draw(st.booleans()), "endian": draw(st.sampled_from("<>")), "salt": draw(st.integers(0, 1 << 30)),
-        "layout": draw(st.sampled_from(["oneline", "multiline", "trailing-comma"])),
+        "layout": draw(st.sampled_from(["oneline", "multiline", "trailing-comma", "newline-only", "continued"])) if not legacy else draw(st.sampled_from(["oneline", "multiline", "trailing-comma"])),
+        "base_spelling": draw(st.integers(0, 3)),
     }
 
 
 def render(case, name):
     ms = [f"{n} = {t}" if t is not None else n for n, t, _ in case["members"]]
-    head = f"{case['kind']} {name + ' ' if name else ''}: {case['base']}"
+    base = case["base"]
+    sp = case.get("base_spelling", 0)
+    if sp == 1 and base in SPELLINGS and not case.get("legacy"):
+        base = SPELLINGS[base]
+    elif sp == 2 and not case.get("legacy"):
+        base = "base_alias_t"  # a typedef chain to the underlying type (declared by run_case before the enum)
+    head = f"{case['kind']} {name + ' ' if name else ''}: {base}"
     if case["layout"] == "oneline":
         body = "{ " + ", ".join(ms) + " }"
     elif case["layout"] == "multiline":
         body = "{\n" + ",\n".join("    " + x for x in ms) + "\n}"
+    elif case["layout"] == "newline-only":
+        body = "{\n" + "".join("    " + x + "\n" for x in ms) + "}"  # a line break separates members
+    elif case["layout"] == "continued":
+        # an expression continues on the next line after '=', around a binary operator and after '('; a blank line inside
+        def brk(x):
+            for a, b in ((" = ", " =\n        "), (" + ", " +\n        "), (" | ", "\n        | "), (" << ", " <<\n\n        "), ("(", "(\n        "), (" * ", "\n        * "), (" & ", " &\n        "), (" - ", " -\n        ")):
+                x = x.replace(a, b)
+            return x
+
+        body = "{\n" + ",\n".join("    " + brk(x) for x in ms) + "\n}"
     else:
         body = "{\n" + "".join("    " + x + ",\n" for x in ms) + "}"
     return f"{head} {body};\n"
@@ -119,6 +139,10 @@ def _values(case, size, signed, tier):
     if size == 1 or (size == 2 and tier == "thorough" and case["salt"] % 4 == 0):
         return list(range(lo, hi + 1))
     vals = {lo, lo + 1, 0, 1, 2, 3, hi, hi - 1, hi >> 1, (hi >> 1) + 1} | {v for _, v in case["_expected"]} | {v + 1 for _, v in case["_expected"]}
+    for k_ in range(bits + 1):
+        for d_ in (-1, 0, 1):
+            vals.add((1 << k_) + d_)
+            vals.add(-(1 << k_) + d_)
     x = 0x9E3779B97F4A7C15 ^ case["salt"]
     for _ in range((2048 if tier == "quick" else 8192) if size == 2 else 64 if tier == "quick" else 400):
         x = (x * 6364136223846793005 + 1442695040888963407) & ((1 << 128) - 1)
@@ -137,8 +161,15 @@ def run_case(case, ctx, tier=None):
     case["_expected"] = expected
     name = case["name"]
     text = render(case, name)
-    other = render(dict(case, members=[[n, None, None] for n, _, _ in case["members"]]), "Other") if name else ""
+    other_members = [[n, None, None] for n, _, _ in case["members"]] + [["ONLY_IN_OTHER", None, None]]
+    other = render(dict(case, members=other_members, layout="oneline"), "Other") if name else ""
     cs = m.cstruct(endian=case["endian"])
+    if name and not case["legacy"]:
+        # a class of the OTHER kind (flag for an enum, enum for a flag) over the same underlying type
+        other += f"{'flag' if kind == 'enum' else 'enum'} Cross : {base} {{ CX = 1, CY = 2 }};\n"
+    if case.get("base_spelling") == 2 and not case["legacy"]:
+        text = f"typedef {base} base_inner_t;\ntypedef base_inner_t base_alias_t;\n" + text
+        other = other.replace(": base_alias_t", f": {base}")
     if case.get("shadow"):
         sn, sv, how = case["shadow"]
         pre = f"#define {sn} {sv}\n" if how == "define" else f"enum {{ {sn} = {sv} }};\n"
@@ -160,6 +191,14 @@ def run_case(case, ctx, tier=None):
     got_members = [(k, int(v.value)) for k, v in E.__members__.items()]
     if got_members != expected:
         raise Violation("numbering", f"{text!r} ({'legacy' if case['legacy'] else 'token'} parser): members {got_members}, C numbering gives {expected}")
+    if name:
+        # the second declaration of the same load starts numbering afresh
+        exp_other = ref_numbering(kind, [(n, None) for n, _, _ in other_members])
+        got_other = [(k, int(v.value)) for k, v in cs.Other.__members__.items()]
+        if [v for _, v in exp_other if True] and got_other != exp_other and all(lo_ <= v for lo_, v in ((-(1 << (size * 8)), v) for _, v in exp_other)):
+            hi_ = (1 << (size * 8 - (1 if signed else 0))) - 1
+            if all(v <= hi_ for _, v in exp_other):
+                raise Violation("numbering", f"{text + other!r}: the second declaration Other has members {got_other}, C numbering gives {exp_other}")
     case["_expected"] = expected
     vals = _values(case, size, signed, tier)
     case.pop("_expected", None)
@@ -167,6 +206,11 @@ def run_case(case, ctx, tier=None):
     for k, v in expected:
         byval.setdefault(v, []).append(k)
     ET = getattr(cs, base)
+    cs2 = m.cstruct(endian=case["endian"])
+    r2 = lib(cs2.load, text + other, compiled=case["compiled"], **kw) if not case["legacy"] else lib(cs2.load, text + other, **kw)
+    E2 = None
+    if not isinstance(r2, Err):
+        E2 = cs2.E if name else type(cs2.consts.get(expected[0][0]))
     prev = None
     n = 0
     for v in vals:
@@ -203,6 +247,14 @@ def run_case(case, ctx, tier=None):
             o = lib(cs.Other, raw)
             if not isinstance(o, Err) and (o == e or e == o):
                 raise Violation("cross-class-equal", f"{what}: equals Other({v}) of a different class with the same member names")
+        if name and not case["legacy"] and v >= 0 and (n % 5 == 0 or v in (1, 2)):
+            ox = lib(cs.Cross, raw)
+            if not isinstance(ox, Err) and (ox == e or e == ox):
+                raise Violation("cross-class-equal", f"{what}: equals Cross({v}), a {'flag' if kind == 'enum' else 'enum'} class")
+        if E2 is not None and n % 7 == 0:
+            o2 = lib(E2, raw)
+            if not isinstance(o2, Err) and (o2 == e or e == o2):
+                raise Violation("cross-class-equal", f"{what}: equals the value parsed by the same-named, same-membered class of ANOTHER cstruct object")
         n += 1
         if v not in byval or len(byval[v]) > 1 or (kind == "flag" and v and (v & (v - 1))):
             ctx.mark_nontrivial([text, v])
@@ -218,17 +270,35 @@ def run_case(case, ctx, tier=None):
     if name and not case["legacy"]:
         nz = [v for v in vals if v != 0][:40:8] or [1]
         three = (nz * 3)[:3]
+        mv = [v for _, v in expected if v != 0]
+        if mv:
+            three[1] = mv[len(mv) // 2]  # a member (or alias) value among the context values
         arr = b"".join(v.to_bytes(size, bo, signed=signed) for v in three)
         a = lib(E[3], arr)
         if isinstance(a, Err) or [int(x.value) for x in a] != three or lib(E[3].dumps, a) != arr:
             raise Violation("context:fixed-array", f"{text!r}: E[3]({arr.hex()}) -> {a!r}, expected {three}")
+
+        def same_as_scalar(x, v, where):
+            sc = E(v.to_bytes(size, bo, signed=signed))
+            if type(x) is not E or not (x == sc) or hash(x) != hash(sc) or x.name != sc.name:
+                raise Violation("context:" + where, f"{text!r}: value {v} read in context '{where}' is {x!r} (type {type(x).__name__}, name {x.name!r}); the scalar parse gives {sc!r} (name {sc.name!r}): not equal / not the same hash")
+
+        for x, v in zip(a, three):
+            same_as_scalar(x, v, "fixed-array")
+        zarr = three[0].to_bytes(size, bo, signed=signed) + bytes(size) + three[2].to_bytes(size, bo, signed=signed)
+        az = lib(E[3], zarr)
+        if isinstance(az, Err) or [int(x.value) for x in az] != [three[0], 0, three[2]] or lib(E[3].dumps, az) != zarr:
+            raise Violation("context:fixed-array", f"{text!r}: E[3]({zarr.hex()}) -> {az!r}, expected a zero in the middle")
+        same_as_scalar(az[1], 0, "fixed-array")
         z = arr + bytes(size)
         a0 = lib(E[None], z + b"\xff")
         if isinstance(a0, Err) or [int(x.value) for x in a0] != three or lib(E[None].dumps, a0) != z:
             raise Violation("context:null-terminated-array", f"{text!r}: E[]({z.hex()}) -> {a0!r}, expected {three} and the terminator re-appended")
         sdef = f"struct S {{ uint8 pre; E f; E g[2]; }};"
+        for x, v in zip(a0, three):
+            same_as_scalar(x, v, "null-terminated-array")
         bitsdef = ""
-        if size in (1, 2, 4, 8):
+        if size in (1, 2, 3, 4, 6, 8, 16):
             w1 = min(3, size * 8 - 1)
             bitsdef = f"struct BF {{ E p : {w1}; E q : {size * 8 - w1}; }};"
         r = lib(cs.load, sdef + bitsdef, compiled=case["compiled"])
@@ -238,6 +308,9 @@ def run_case(case, ctx, tier=None):
         s = lib(cs.S, data)
         if isinstance(s, Err) or int(s.f.value) != three[0] or [int(x.value) for x in s.g] != three[1:] or type(s.f) is not E or lib(s.dumps) != data:
             raise Violation("context:struct-field", f"{text!r}: S({data.hex()}) -> {s!r}")
+        same_as_scalar(s.f, three[0], "struct-field")
+        for x, v in zip(s.g, three[1:]):
+            same_as_scalar(x, v, "struct-field")
         if bitsdef:
             for U in (vals[len(vals) // 3] & ((1 << size * 8) - 1), (1 << size * 8) - 1, 0x5A5A5A5A5A5A5A5A & ((1 << size * 8) - 1)):
                 raw = U.to_bytes(size, bo)
@@ -247,6 +320,8 @@ def run_case(case, ctx, tier=None):
                 wantq = (U >> (w1 if bo == "little" else 0)) & ((1 << (size * 8 - w1)) - 1)
                 if isinstance(b, Err) or int(b.p.value) != wantp or int(b.q.value) != wantq or type(b.p) is not E or lib(b.dumps) != raw:
                     raise Violation("context:bit-field", f"{text!r}: BF({raw.hex()}) -> {b!r}, expected p={wantp} q={wantq}")
+                if not signed:
+                    same_as_scalar(b.p, wantp, "bit-field")
             ctx.count("context:bit-field")
         ctx.count("context:arrays+struct")
     ctx.evaluations += max(0, n - 1)
